@@ -174,6 +174,26 @@ def chain_tie_games():
     return out
 
 
+def minreach_games():
+    """Player 2 at the root has two reachability-TIED actions; one leads to a second Player-2 state whose reachability-minimal
+    action is the dear one and whose reward-minimal action is the cheap one, the other to a plain state in between. 'Rewards
+    under minimal reachability' at the root is the cheaper CONTINUATION UNDER THE REACHABILITY STRATEGIES (5), not the
+    continuation of the successor with the smaller expected reward (10). All row orders, two reward scales."""
+    import itertools
+    out = []
+    F, S = 5, 6
+    for scale in (1, 7):
+        for o0, o1 in itertools.product(((0, 1), (1, 0)), repeat=2):
+            r0 = [("a", 1), ("b", 2)]
+            r1 = [("x", 3), ("y", 4)]
+            tl = [[r0[i] for i in o0], [r1[i] for i in o1], [(0.5, F), (0.5, S)], [(0.5, F), (0.5, S)], [(1, F)], [(1, F)], [(1, S)]]
+            fr = [None, None, [Fr(1, 2), Fr(1, 2)], [Fr(1, 2), Fr(1, 2)], [Fr(1)], [Fr(1)], [Fr(1)]]
+            out.append((dict(rewards=[0, 0, 5 * scale, 10 * scale, 1 * scale, 0, 0],
+                             players=["Player 2", "Player 2"] + ["Probabilistic"] * 5, transition_list=tl, final_states=[F]),
+                        dict(fr=fr, style="pattern")))
+    return out
+
+
 def extra_families(rng, base, count):
     """the families that came out of the seeded-change rounds, `count` games each, derived from `base` (games whose reward
     loop terminates): orphan states without a losing state; twins spelt with a shared list object (same owner / other
